@@ -36,7 +36,9 @@
 (*                      the annotation node and the target's base node (DESIGN 5, F8)   *)
 (* Mutant names plausible wrong designs that TLC must reject (non-vacuity):             *)
 (*   no_pop_nested_class, class_body_checked, import_before_future, method_decorated,   *)
-(*   first_is_top (FIRST placed at the top), subscript_checked.                         *)
+(*   first_is_top (FIRST placed at the top), subscript_checked, end_line_from_start     *)
+(*   (an inserted node's end line copied from the host's first line, its end column from *)
+(*   the host's last line).                                                              *)
 (*                                                                                      *)
 (* Slices (bounded grammars; the driver chooses MaxNodes / MaxDepth per tier):          *)
 (*   "scope"  nesting of sync/async/unannotated defs, classes, a block, annotated       *)
@@ -60,7 +62,7 @@ vars == <<prog, pc, conf, i, scopes, edits, decided>>
 
 LegacyNames == {"async_no_scope", "copy_subexprs"}
 MutantNames == {"no_pop_nested_class", "class_body_checked", "import_before_future",
-                "method_decorated", "first_is_top", "subscript_checked"}
+                "method_decorated", "first_is_top", "subscript_checked", "end_line_from_start"}
 ASSUME Legacy \subseteq LegacyNames /\ Mutant \subseteq MutantNames
 
 -----------------------------------------------------------------------------
@@ -162,7 +164,15 @@ PlaceOf(c, n) == IF n.k = "class" THEN c.pt ELSE c.pf
 (* statement right after; line = the node whose location the inserted node carries;      *)
 (* conf = a conf= keyword is passed; reeval = original sub-expressions that the inserted *)
 (* node evaluates itself.                                                                *)
-Edit(kind, at, pos, line, ck, re) == [kind |-> kind, at |-> at, pos |-> pos, line |-> line, conf |-> ck, reeval |-> re]
+(* Location: the inserted node starts where its host (node `line`) starts; eline / ecol  *)
+(* name the end point of the host from which its end line / end column are copied.  Host  *)
+(* statements may span several lines and may end left of the column they start in, so    *)
+(* only (eline, ecol) = ("end", "end") -- or ("start", "start") -- is a position of the   *)
+(* host; a mixed pair can lie before the start (an invalid range for compile()).         *)
+Edit(kind, at, pos, line, ck, re) ==
+    [kind |-> kind, at |-> at, pos |-> pos, line |-> line, conf |-> ck, reeval |-> re, eline |-> "end", ecol |-> "end"]
+(* as placed by the walk (copy_node_metadata) *)
+WalkLoc(e) == IF "end_line_from_start" \in Mutant THEN [e EXCEPT !.eline = "start"] ELSE e
 
 ImportEdit(P, plen) ==
     IF plen = Len(P) THEN {}        \* an (otherwise) empty module gets no import
@@ -249,7 +259,7 @@ EnterModule(c) ==
     /\ pc = "build" /\ Complete
     /\ pc' = "walk" /\ conf' = c /\ i' = 1
     /\ scopes' = <<Scope("module", 0, 0, FALSE)>>
-    /\ edits' = ImportEdit(prog, ScanPrefix(prog, 1))
+    /\ edits' = {WalkLoc(e) : e \in ImportEdit(prog, ScanPrefix(prog, 1))}
     /\ decided' = FALSE
     /\ UNCHANGED prog
 
@@ -269,8 +279,8 @@ NeedsDecor(n) ==
 PlaceDecorator ==
     /\ AtNode /\ ~decided /\ NeedsDecor(prog[i])
     /\ edits' = edits \cup
-          {IF "first_is_top" \in Mutant /\ PlaceOf(conf, prog[i]) = "FIRST"      \* insert(0) instead of append
-           THEN DecorEditAt(prog, conf, i, 0) ELSE DecorEdit(prog, conf, i, Top.imp)}
+          {WalkLoc(IF "first_is_top" \in Mutant /\ PlaceOf(conf, prog[i]) = "FIRST"      \* insert(0) instead of append
+                   THEN DecorEditAt(prog, conf, i, 0) ELSE DecorEdit(prog, conf, i, Top.imp))}
     /\ decided' = TRUE
     /\ UNCHANGED <<prog, pc, conf, i, scopes>>
 
@@ -295,7 +305,7 @@ VisitAnnAssign ==
     /\ edits' = IF /\ conf.pep /\ prog[i].val
                    /\ (~InClass \/ "class_body_checked" \in Mutant)
                    /\ (prog[i].tgt \in {"name", "attr", "attrcall"} \/ "subscript_checked" \in Mutant)
-                THEN edits \cup {CheckEditC(prog, conf, i, "copy_subexprs" \in Legacy)} ELSE edits
+                THEN edits \cup {WalkLoc(CheckEditC(prog, conf, i, "copy_subexprs" \in Legacy))} ELSE edits
     /\ i' = i + 1
     /\ UNCHANGED <<prog, pc, conf, scopes, decided>>
 
@@ -372,10 +382,12 @@ ChecksWellPlaced ==
         /\ ScopeKind(prog, NearestScope(prog, e.at)) # "class"
         /\ prog[e.at].tgt # "subscript"
 
-(* every inserted node carries the location of an existing sibling / host node *)
+(* every inserted node carries the full location (start line and column, end line and   *)
+(* column) of an existing sibling / host node: a valid range inside the host's range     *)
 LinePreserved ==
     \A e \in edits :
         /\ e.line \in Nodes(prog)
+        /\ e.eline = e.ecol /\ e.eline \in {"start", "end"}
         /\ e.kind \in {"decorate", "check"} => e.line = e.at
         /\ e.kind = "import" => prog[e.line].d = 1 /\ ~IsPrefixNode(prog[e.line])
                                 /\ \A q \in 1 .. (e.line - 1) : IsPrefixNode(prog[q])
